@@ -6,7 +6,28 @@ HERE = os.path.dirname(os.path.dirname(os.path.abspath(__file__)))
 
 ALL = ['C%02d' % i for i in range(1, 21)]
 
+CORE_NOTE = ('Trusted: Coq kernel; the translators (templates, sign sets, class table); the correspondence '
+             'harness (generators, spy containers, IR printers); CPython evaluating the generated expression as '
+             'Core/Expr.v does (tested by the verdict+trace correspondence, not proved). Modelled grammar G: '
+             'classes, None, unions, literals, fixed/variadic tuples, 15 one-argument container signs, 6 mapping '
+             'signs, Counter, type[...], shallow Iterator/Generator; objects: scalars, str/bytes, builtin and '
+             'collections/abc containers, one-shot iterators, user Sequence/Collection/Iterable/Container/Mapping, '
+             'class objects, instances. User __eq__/__bool__/__instancecheck__ not modelled. All theorems closed '
+             'under the global context.')
+
 CLAIMED = {
+    'C01': dict(
+        text='Machine-checked (Coq 8.16.1): the check expression generated from the regenerated templates '
+             'evaluates, for every hint of the modelled grammar, every well-formed object, every draw in Z and '
+             'both sampler modes, to exactly the sampled semantics chk without raising (induction on hints over '
+             'an evaluator with environments, walrus bindings and short-circuiting), and chk accepts every object '
+             'that satisfies the hint at full depth (sat). The hand-written generator model is tied to the code '
+             'on every run by differential execution on generated hints/objects/draws through five entry '
+             'points with spy containers (verdict, protocol trace) and sat is tied to an independent Python '
+             'rendition of the published meaning.',
+        note=CORE_NOTE,
+        technique='Coq proof by induction on hints (generated code = chk; sat implies chk) + translator-regenerated templates + differential correspondence',
+        design='5/C01'),
     'C06': dict(
         text='Machine-checked refinement (Coq 8.16.1): the trie registry model answers every query, reports every '
              'per-call outcome and holds the path hook exactly as a flat longest-prefix specification does, for '
